@@ -50,7 +50,9 @@ def gen_rule(rnd, i, dup):
     dets = {nm: {f"f{j}": rnd.choice(["v", "w*", "*x*", 5, "a\\*b"])} for j, nm in enumerate(names)}
     cond = rnd.choice(CONDS).format(names[0], names[-1])
     conds = cond if rnd.random() < 0.8 else [cond, rnd.choice(CONDS).format(names[-1], names[0])]
-    d = {"title": f"Title {rnd.choice(dup['titles'])}", "logsource": {"category": "process_creation", "product": "windows"},
+    tsel = rnd.choice(dup['titles'])
+    # titles incl. the shortest ones: the empty title and a blank are values like any other that rules can share
+    d = {"title": {0: "", 1: " "}.get(tsel, f"Title {tsel}") if dup.get("short_titles") else f"Title {tsel}", "logsource": {"category": "process_creation", "product": "windows"},
          "detection": {**dets, "condition": conds}, "level": "medium", "status": "test", "tags": ["attack.t1059", "attack.execution", "attack.defense-evasion"],
          # list-valued attributes in a non-sorted order, some with duplicates: a validator must not reorder or deduplicate them
          "references": rnd.choice([["https://z.example/b", "https://a.example/a"], ["https://m.example", "https://b.example", "https://m.example"]]),
@@ -66,7 +68,7 @@ def gen_cases(tier, seed, gen, effort):
     cases = []
     for _ in range((600 if not thorough else 8000) * effort):
         n = rnd.randint(1, 5)
-        dup = {"titles": list(range(rnd.randint(1, n))), "ids": list(range(rnd.randint(1, n)))}
+        dup = {"titles": list(range(rnd.randint(1, n))), "ids": list(range(rnd.randint(1, n))), "short_titles": rnd.random() < 0.25}
         rules = [gen_rule(rnd, i, dup) for i in range(n)]
         files = [f"rule_{rnd.choice(range(max(1, n - 1)))}.yml" for _ in range(n)]
         dirs = [rnd.choice(["a", "b"]) for _ in range(n)]
